@@ -96,7 +96,7 @@ def run(chk):
                 break
     # solvers created WITHOUT a parameters object (they use the library's default), problems of 1..7 variables
     for _ in range(12 if thorough else 4):
-        fails = O.guarded(default_parameters, {'dims': [rng.choice([1, 2, 3]), rng.choice([6, 7]), rng.choice([2, 3, 4])], 'seed': rng.randrange(10 ** 6)})
+        fails = O.guarded(default_parameters, {'dims': [rng.choice([2, 3]), rng.choice([6, 7]), rng.choice([2, 3, 4])], 'seed': rng.randrange(10 ** 6)})
         chk.evaluations += 1
         if fails:
             found += chk.violation('not-isolated', fails[0], {'kind': 'default-params'})
